@@ -1034,6 +1034,19 @@ engine_gen(struct plan * P, uint64_t seed, struct prng * g)
 		return;
 	}
 	n = 1 + (int)prng_n(g, 14);
+	if (prng_n(g, 600) == 0) {
+		/*
+		 * the very first request of the process is larger than 256 generate calls, and the reseed that falls
+		 * due inside it fails (second session of the entropy device): the call fails after the generator was
+		 * instantiated; what follows must go on from that state
+		 */
+		l = plan_add(P, "step", "read", 2, (int64_t)prng_n(g, 70000), (int64_t)1);
+		pline_tok(l, 1, (int64_t)0);
+		pline_tok(l, 1, (int64_t)0);
+		pline_tok(l, 1, (int64_t)0);
+		pline_tok(l, 1, (int64_t)(prng_chance(g, 50) ? 1 : 0));
+		pline_tok(l, 1, (int64_t)3);
+	}
 	for (i = 0; i < n; i++) {
 		unsigned x = prng_n(g, 100);
 
